@@ -71,6 +71,48 @@ def lemma_table():
         sol.add(z3.Not(z3.And(o1 == m[o1], o2 == m[o2])))
 
 
+def replay_literal(text):
+    from bare_script import parse_expression
+    from bare_script.parser import BareScriptParserError
+    try:
+        parse_expression(text)
+    except BareScriptParserError:
+        return True, {}
+    except Exception as exc:  # pylint: disable=broad-exception-caught
+        return False, {'clause': 'malformed numeric text is not rejected with a parser error', 'text': text, 'exception': f'{type(exc).__name__}: {exc}'}
+    return True, {}
+
+
+def lemma_number_literal():
+    """every text the live numeric-literal regex accepts is a well-formed float literal (else float() raises a host ValueError)"""
+    import z3
+    import bare_script.parser as P
+    from .. import rx2z3 as R
+    rx = R.Rx(P._R_EXPR_NUMBER, ascii_only=True)
+    num = rx.group(1)
+    d = R.re_range(0x30, 0x39)
+    lit = lambda s: z3.Re(z3.StringVal(s))
+    sign = z3.Option(R.union([lit('+'), lit('-')]))
+    floatlit = z3.Concat(sign, R.union([z3.Concat(z3.Plus(d), z3.Option(z3.Concat(lit('.'), z3.Star(d)))), z3.Concat(lit('.'), z3.Plus(d))]),
+                         z3.Option(z3.Concat(R.union([lit('e'), lit('E')]), sign, z3.Plus(d))))
+    T = z3.String('T')
+    sol = z3.Solver()
+    sol.set('timeout', 120000)
+    sol.add(z3.InRe(T, num), z3.Not(z3.InRe(T, floatlit)), z3.Length(T) <= 12)
+    for _ in range(6):
+        r = str(sol.check())
+        if r == 'unsat':
+            return {'state': 'unsat', 'lemma': 'L(numeric literal regex) is within the float-literal language (|T| <= 12)'}
+        if r != 'sat':
+            return {'state': 'inconclusive', 'why': r}
+        text = R.py_str(R.model_str(sol.model(), T))
+        ok, info = replay_literal(text)
+        if not ok:
+            return {'state': 'violation', 'detail': info, 'replay': {'module': 'vf.props.c02', 'fn': 'replay_literal', 'kwargs': {'text': text}}}
+        sol.add(T != R.strval(text))
+    return {'state': 'inconclusive', 'why': 'regex-level witnesses are all handled with a parser error'}
+
+
 CORE = '''
 from bare_script import parse_expression
 from bare_script.parser import BareScriptParserError
@@ -135,7 +177,7 @@ def core_chain4(o2, o3, o4):
     return True, {{}}
 
 
-TOKENS = ['aa', '1', '+', '*', '(', ')', ',', 'ff(', '!', '-', '=', "'s'", '&&', '==', '@']
+TOKENS = ['aa', '1', '+', '*', '(', ')', ',', 'ff(', '!', '-', '=', "'s'", '&&', '==', '@', '2e', '1.5e-']
 BIN = ('+', '*', '-', '&&', '==')
 
 
@@ -175,7 +217,7 @@ def _recognise(toks):
                 if peek() != ',':
                     return False
                 pos[0] += 1
-        if t in ('aa', '1', "'s'"):
+        if t in ('aa', '1', "'s'"):      # '2e' / '1.5e-' are not tokens of the grammar: rejected
             pos[0] += 1
             return True
         return False
@@ -216,6 +258,8 @@ def plan(tier, seed, workdir):
     p.functions_encoded.append({'name': 'bare_script.parser.BINARY_REORDER', 'value': {k: sorted(v) for k, v in ps.BINARY_REORDER.items()}})
     p.add({'kind': 'lemma', 'id': 'lemma_table', 'module': 'vf.props.c02', 'fn': 'lemma_table', 'kwargs': {}, 'timeout': 300, 'est': 5},
           family='E2 precedence table == level order')
+    p.add({'kind': 'lemma', 'id': 'lemma_number_literal', 'module': 'vf.props.c02', 'fn': 'lemma_number_literal', 'kwargs': {}, 'timeout': 300, 'est': 5},
+          family='E2 numeric literal regex within the float-literal language (rejection with a parser error, not a host ValueError)')
     timeout = 150 if tier == 'quick' else 900
     kmax = 2 if tier == 'quick' else 3
     for k in range(1, kmax + 1):
@@ -236,9 +280,9 @@ def plan(tier, seed, workdir):
         body += hgen.harness('chain4', 'o2: int, o3: int, o4: int', ['0 <= o2 < 14', '0 <= o3 < 14', '0 <= o4 < 14'], core_call='core_chain4(o2, o3, o4)')
         path = hgen.write_module(workdir, f'c02_chain4_{first:02d}', body, stub=False)
         hgen.ch_tasks(p, path, 'chain4', timeout * 2, twin_timeout=60, est=60, family='E1 four-operator chains over identifiers (all 14^4)', first_operator=first)
-    for first in range(15):
+    for first in range(17):
         body = CORE.format(first=first, k=1)
-        body += hgen.harness('soup', 't2: int, t3: int, n: int', ['0 <= t2 < 15', '0 <= t3 < 15', '1 <= n <= 3'], core_call='core_soup(t2, t3, n)')
+        body += hgen.harness('soup', 't2: int, t3: int, n: int', ['0 <= t2 < 17', '0 <= t3 < 17', '1 <= n <= 3'], core_call='core_soup(t2, t3, n)')
         path = hgen.write_module(workdir, f'c02_soup_{first:02d}', body, stub=False)
         hgen.ch_tasks(p, path, 'soup', timeout, twin_timeout=60, est=30, family='E1 token soup accept/reject', first_token=first)
     p.rule = ('1 z3 lemma over the live precedence table (196 pairs, symbolic operators); CrossHair conditions sharded by first operator / first '
